@@ -21,7 +21,7 @@ fn run(source: &str) -> Option<Result<String, String>> {
 struct St { c1: i32, c2: i32, a: u8, b: u8, tilde: u8, cat: u8, gd: i32 }
 
 #[derive(Clone, Copy, Debug, PartialEq)]
-enum Op { Begin, End, Count1(bool, i32), Alias(bool, i32), DefA(bool, u8), DefTilde(bool, u8), LetB(bool), Cat(bool, u8), GlobalDefs(i32) }
+enum Op { Begin, End, Count1(bool, i32), Alias(bool, i32), DefA(bool, u8), DefTilde(bool, u8), LetB(bool), Cat(bool, u8), GlobalDefs(i32), DefAP(u8, u8), Adv(bool) }
 
 fn tex(op: Op) -> String {
     let g = |b: bool| if b { "\\global" } else { "" };
@@ -34,6 +34,9 @@ fn tex(op: Op) -> String {
         Op::LetB(gl) => format!("{}\\let\\b=\\a ", g(gl)),
         Op::Cat(gl, v) => format!("{}\\catcode`\\!={v} ", g(gl)),
         Op::GlobalDefs(v) => format!("\\globaldefs={v} "),
+        // several prefixes in a row: \global may come first, second or last, or not at all
+        Op::DefAP(k, v) => format!("{}\\def\\a{{{v}}}", ["\\long", "\\long\\global", "\\global\\long\\outer", "\\outer\\long\\global"][k as usize]),
+        Op::Adv(gl) => format!("{}\\advance\\count1 by 1 ", g(gl)),
     }
 }
 
@@ -52,6 +55,8 @@ fn apply(cur: &mut St, saved: &mut Vec<St>, op: Op) -> bool {
         Op::Cat(gl, v) => { let e = eff(gl, cur.gd); set(cur, saved, e, |s| s.cat = v) }
         // \globaldefs is itself an integer parameter: the assignment obeys the CURRENT \globaldefs
         Op::GlobalDefs(v) => { let e = eff(false, cur.gd); set(cur, saved, e, |s| s.gd = v) }
+        Op::DefAP(k, v) => { let e = eff(k >= 1, cur.gd); set(cur, saved, e, |s| s.a = v) }
+        Op::Adv(gl) => { let e = eff(gl, cur.gd); let n = cur.c1 + 1; set(cur, saved, e, |s| s.c1 = n) }
     }
     true
 }
@@ -64,7 +69,8 @@ fn histories(part: usize, parts: usize) {
     let thorough = std::env::var("VERIF_TIER").map(|t| t == "thorough").unwrap_or(false);
     let ops = [Op::Begin, Op::End, Op::Count1(false, 5), Op::Count1(true, 6), Op::Alias(false, 7), Op::Alias(true, 8),
         Op::DefA(false, 2), Op::DefA(true, 3), Op::DefTilde(false, 4), Op::DefTilde(true, 5), Op::LetB(false), Op::LetB(true),
-        Op::Cat(false, 11), Op::Cat(true, 12), Op::GlobalDefs(1), Op::GlobalDefs(-1), Op::GlobalDefs(0)];
+        Op::Cat(false, 11), Op::Cat(true, 12), Op::GlobalDefs(1), Op::GlobalDefs(-1), Op::GlobalDefs(0),
+        Op::DefAP(0, 6), Op::DefAP(1, 7), Op::DefAP(2, 8), Op::DefAP(3, 9), Op::Adv(false), Op::Adv(true)];
     let prelude = "\\catcode`\\~=13 \\countdef\\cc=2 \\count1=1 \\count2=1 \\def\\a{1}\\def\\b{1}\\def~{1}\\catcode`\\!=12 ";
     let init = St { c1: 1, c2: 1, a: 1, b: 1, tilde: 1, cat: 12, gd: 0 };
     let n = ops.len();
